@@ -76,6 +76,8 @@ pub struct ServerState {
     pub fail_writes_after: Option<usize>,
     /// at most this many bytes are accepted per write call
     pub write_chunk: usize,
+    /// plaintext bytes per TLS record when application data is sent
+    pub record_chunk: usize,
     /// refuse the n-th write call from now (0 = the next one) with this error, consuming nothing; later calls work
     pub fail_write_once: Option<(usize, io::ErrorKind)>,
     // --- transport security
@@ -229,6 +231,7 @@ impl ServerState {
             write_log: Vec::new(),
             fail_writes_after: None,
             write_chunk: usize::MAX,
+            record_chunk: usize::MAX,
             fail_write_once: None,
             tls: None,
             tls_identity: 0,
@@ -285,7 +288,14 @@ impl ServerState {
     pub fn push_bytes(&mut self, kind: &str, bytes: &[u8], faulted: bool) {
         self.clock += 1;
         let wire: Vec<u8> = match self.tls.as_mut() {
-            Some(t) if t.is_up() => t.seal(bytes),
+            Some(t) if t.is_up() => {
+                if self.record_chunk == usize::MAX || bytes.is_empty() {
+                    t.seal(bytes)
+                } else {
+                    let pieces: Vec<&[u8]> = bytes.chunks(self.record_chunk.max(1)).collect();
+                    t.seal_records(&pieces)
+                }
+            }
             Some(_) => Vec::new(), // handshake not finished: cannot send application data
             None => bytes.to_vec(),
         };
